@@ -253,4 +253,210 @@ theorem segmentArrives_accept {t : Tcb} {g : Segment} {base : Seq} {p q : Nat}
   rw [sg]
   exact ⟨t', rfl, n, x, sg, st⟩
 
+/-! ## retransmission: after the timer fires, `segments()` re-emits the whole queue -/
+
+theorem segmentize_keeps (maxSeg fuel : Nat) {t t' : Tcb} (qb : Nat) (e : segmentize maxSeg fuel t qb = .ok t') :
+    ∃ more, t'.outgoing.retransmit = t.outgoing.retransmit ++ more ∧ ∀ tr ∈ more, tr.needsTransmit = true := by
+  induction fuel generalizing t qb with
+  | zero => unfold segmentize at e; cases e; exact ⟨[], by simp, fun _ h => by cases h⟩
+  | succ n ih =>
+    unfold segmentize at e
+    dsimp only at e
+    split at e
+    · cases e; exact ⟨[], by simp, fun _ h => by cases h⟩
+    · split at e
+      · cases e
+      · rename_i header _
+        obtain ⟨more, h1, h2⟩ := ih _ e
+        refine ⟨Transmit.new ⟨header, t.outgoing.text.take
+          (min (min maxSeg (t.snd.wnd.toNat - qb)) t.outgoing.text.length)⟩ :: more, ?_, ?_⟩
+        · rw [h1]; simp
+        · intro tr htr
+          rcases List.mem_cons.1 htr with rfl | htr
+          · rfl
+          · exact h2 tr htr
+
+theorem segmentizeIfOpen_keeps {t t' : Tcb} (e : t.segmentizeIfOpen = .ok t') :
+    ∃ more, t'.outgoing.retransmit = t.outgoing.retransmit ++ more ∧ ∀ tr ∈ more, tr.needsTransmit = true := by
+  unfold segmentizeIfOpen at e
+  split at e
+  all_goals first
+    | (split at e
+       · cases e
+       · exact segmentize_keeps _ _ _ e)
+    | (cases e; exact ⟨[], by simp, fun _ h => by cases h⟩)
+
+/-- **retransmission**: when the retransmission timer has expired (`dt` exceeds what is left of
+    it), the next `segments()` returns every segment on the retransmission queue -/
+theorem retransmit_all {t t1 t2 : Tcb} {dt : Nat} {r : AdvanceTimeResult} {out : List Segment}
+    (hdt : dt > t.timeouts.retransmission) (e1 : t.advanceTime dt = .ok (t1, r))
+    (e2 : t1.segments = .ok (t2, out)) :
+    ∀ tr ∈ t.outgoing.retransmit, tr.segment ∈ out := by
+  -- after the tick every entry is flagged
+  have h1 : t1.outgoing.retransmit = t.outgoing.retransmit.map fun tr => { tr with needsTransmit := true } := by
+    unfold advanceTime advanceRetransmission at e1
+    rw [if_pos hdt] at e1
+    dsimp only at e1
+    split at e1
+    · split at e1
+      · cases e1; rfl
+      · first
+        | (cases e1; rfl)
+        | (split at e1
+           · cases e1
+           · cases e1; rfl)
+    · cases e1; rfl
+  intro tr htr
+  unfold segments at e2
+  dsimp only at e2
+  cases hs : segmentizeIfOpen { t1 with outgoing.oneshot := [] } with
+  | error x => rw [hs] at e2; cases e2
+  | ok s1 =>
+    rw [hs] at e2
+    simp only [Except.ok.injEq, Prod.mk.injEq] at e2
+    obtain ⟨more, hk, _⟩ := segmentizeIfOpen_keeps hs
+    rw [← e2.2, List.mem_append]
+    right
+    rw [List.mem_map]
+    refine ⟨{ tr with needsTransmit := true }, ?_, rfl⟩
+    rw [List.mem_filter]
+    refine ⟨?_, rfl⟩
+    rw [hk, List.mem_append]
+    left
+    show _ ∈ t1.outgoing.retransmit
+    rw [h1, List.mem_map]
+    exact ⟨tr, htr, rfl⟩
+
+/-! ## a new cumulative ACK advances SND.UNA and removes exactly the covered segments -/
+
+theorem seqCheck_pass {t : Tcb} {seg : Hdr} {tl : Seq} (hns : t.state ≠ .SynSent)
+    (h : t.isSeqOk tl seg.seq seg.ctl.syn seg.ctl.fin = .ok true) : seqCheck t seg tl = .ok (t, none) := by
+  unfold seqCheck
+  split
+  · rename_i hs; exact absurd hs hns
+  · rw [h]
+
+theorem modGt_self (a : Seq) : modGt a a = false := by
+  unfold modGt modLt
+  simp
+
+/-- `process_segment` on a pure ACK at `RCV.NXT` that acknowledges something new and nothing unsent -/
+theorem processSegment_ack {t : Tcb} {g : Segment}
+    (hst : t.state = .Established) (hw : t.rcv.wnd = 65535#16)
+    (htext : g.text = []) (hrst : g.hdr.ctl.rst = false) (hsyn : g.hdr.ctl.syn = false)
+    (hfin : g.hdr.ctl.fin = false) (hack : g.hdr.ctl.ack = true) (hseq : g.hdr.seq = t.rcv.nxt)
+    (hnew : modLeq g.hdr.ack t.snd.una = false)
+    (hok : modBounded t.snd.una .Lt g.hdr.ack .Leq t.snd.nxt = true) :
+    ∃ t', t.processSegment g = .ok (t', .Success) ∧ t'.snd.una = g.hdr.ack ∧
+      t'.outgoing.retransmit = t.outgoing.retransmit.filter
+        (fun tr => modLt g.hdr.ack (tr.segment.hdr.seq + BitVec.ofNat 32 tr.segment.segLen)) ∧
+      t'.snd.nxt = t.snd.nxt ∧ t'.snd.iss = t.snd.iss ∧ t'.rcv = t.rcv ∧ t'.incoming = t.incoming ∧
+      t'.state = .Established ∧ t'.outgoing.text = t.outgoing.text ∧ t'.outgoing.oneshot = t.outgoing.oneshot := by
+  have h16 : (65535#16 : BitVec 16).toNat = 65535 := rfl
+  have hw0 : ¬ t.rcv.wnd = 0 := by rw [hw]; decide
+  have hin : t.isInRcvWindow t.rcv.nxt = true := by
+    rw [isInRcvWindow_iff, hw, h16]
+    left
+    have : t.rcv.nxt - t.rcv.nxt = 0 := by bv_omega
+    rw [this]; decide
+  have hseqok : t.isSeqOk (BitVec.ofNat 32 g.text.length) g.hdr.seq g.hdr.ctl.syn g.hdr.ctl.fin = .ok true := by
+    unfold isSeqOk
+    rw [htext, hsyn, hfin, hseq]
+    simp only [List.length_nil, BitVec.toNat_ofNat, Nat.zero_mod, Bool.toNat_false, Nat.add_zero]
+    rw [if_neg (by omega), if_pos trivial, if_neg hw0, hin]
+  have e1 := seqCheck_pass (seg := g.hdr) (tl := BitVec.ofNat 32 g.text.length) (by rw [hst]; simp) hseqok
+  -- the TCB after the ACK has been processed
+  obtain ⟨t3, e3, p3⟩ : ∃ t3, ackBlock t g.hdr = .ok (t3, none) ∧
+      (t3.snd.una = g.hdr.ack ∧
+      t3.outgoing.retransmit = t.outgoing.retransmit.filter
+        (fun tr => modLt g.hdr.ack (tr.segment.hdr.seq + BitVec.ofNat 32 tr.segment.segLen)) ∧
+      t3.snd.nxt = t.snd.nxt ∧ t3.snd.iss = t.snd.iss ∧ t3.rcv = t.rcv ∧ t3.incoming = t.incoming ∧
+      t3.state = .Established ∧ t3.outgoing.text = t.outgoing.text ∧ t3.outgoing.oneshot = t.outgoing.oneshot) := by
+    unfold ackBlock
+    rw [if_neg (by simp [hack])]
+    split
+    all_goals first
+      | (rename_i hs; rw [hst] at hs; cases hs; done)
+      | skip
+    unfold afterAckEstablished ackEstablishedProcessing
+    rw [if_neg (by rw [hnew]; simp), if_neg (by rw [hok]; simp)]
+    dsimp only
+    rw [if_pos rfl]
+    refine ⟨_, rfl, ?_⟩
+    unfold removeAckedFromRetransmission
+    split <;> exact ⟨rfl, rfl, rfl, rfl, rfl, rfl, hst, rfl, rfl⟩
+  obtain ⟨u3, r3, n3, i3, rc3, in3, st3, ot3, os3⟩ := p3
+  have e4 : rstBlock t3 g.hdr = .ok (t3, none) := by
+    unfold rstBlock
+    rw [if_pos (by simp [hrst])]
+  have e5 : synBlock t3 g.hdr = .ok (t3, none) := by
+    unfold synBlock
+    rw [if_pos (by simp [hsyn]), if_neg (by rw [st3]; simp)]
+  have e6 : textBlock t3 g.hdr g.text (BitVec.ofNat 32 g.text.length) = .ok (t3, none) := by
+    unfold textBlock
+    rw [if_pos (by rw [htext]; rfl)]
+  have e7 : finBlock t3 g.hdr (BitVec.ofNat 32 g.text.length) = .ok (t3, none) := by
+    unfold finBlock
+    rw [if_pos (by simp [hfin])]
+  unfold processSegment
+  dsimp only
+  rw [e1, andThen_none, e3, andThen_none, e4, andThen_none, e5, andThen_none, e6, andThen_none, e7]
+  exact ⟨t3, rfl, u3, r3, n3, i3, rc3, in3, st3, ot3, os3⟩
+
+/-- **acknowledgment progress**: at an ESTABLISHED endpoint with an empty reorder heap, a pure ACK
+    at `RCV.NXT` that acknowledges something new and nothing unsent (`SND.UNA < SEG.ACK ≤ SND.NXT`)
+    sets `SND.UNA = SEG.ACK` and removes from the retransmission queue exactly the segments that end
+    at or before `SEG.ACK`; the receive side, the unsent text and `SND.NXT` are untouched -/
+theorem segmentArrives_ack {t : Tcb} {g : Segment}
+    (hst : t.state = .Established) (hw : t.rcv.wnd = 65535#16) (hheap : t.incoming.segments = [])
+    (htext : g.text = []) (hrst : g.hdr.ctl.rst = false) (hsyn : g.hdr.ctl.syn = false)
+    (hfin : g.hdr.ctl.fin = false) (hack : g.hdr.ctl.ack = true) (hseq : g.hdr.seq = t.rcv.nxt)
+    (hnew : modLeq g.hdr.ack t.snd.una = false)
+    (hok : modBounded t.snd.una .Lt g.hdr.ack .Leq t.snd.nxt = true) :
+    ∃ t', t.segmentArrives g = .ok (t', .Ok) ∧ t'.snd.una = g.hdr.ack ∧
+      t'.outgoing.retransmit = t.outgoing.retransmit.filter
+        (fun tr => modLt g.hdr.ack (tr.segment.hdr.seq + BitVec.ofNat 32 tr.segment.segLen)) ∧
+      t'.snd.nxt = t.snd.nxt ∧ t'.snd.iss = t.snd.iss ∧ t'.rcv = t.rcv ∧ t'.incoming = t.incoming ∧
+      t'.state = .Established ∧ t'.outgoing.text = t.outgoing.text ∧ t'.outgoing.oneshot = t.outgoing.oneshot := by
+  have h16 : (65535#16 : BitVec 16).toNat = 65535 := rfl
+  have hw0 : ¬ t.rcv.wnd = 0 := by rw [hw]; decide
+  have hin : t.isInRcvWindow t.rcv.nxt = true := by
+    rw [isInRcvWindow_iff, hw, h16]
+    left
+    have : t.rcv.nxt - t.rcv.nxt = 0 := by bv_omega
+    rw [this]; decide
+  have hseqok : t.isSeqOk (BitVec.ofNat 32 g.text.length) g.hdr.seq g.hdr.ctl.syn g.hdr.ctl.fin = .ok true := by
+    unfold isSeqOk
+    rw [htext, hsyn, hfin, hseq]
+    simp only [List.length_nil, BitVec.toNat_ofNat, Nat.zero_mod, Bool.toNat_false, Nat.add_zero]
+    rw [if_neg (by omega), if_pos trivial, if_neg hw0, hin]
+  obtain ⟨t3, e3, u3, r3, n3, i3, rc3, in3, st3, ot3, os3⟩ :=
+    processSegment_ack (t := { t with incoming.segments := [] }) (g := g) hst hw htext hrst hsyn hfin hack hseq hnew hok
+  have hinc : ({ t with incoming.segments := [] } : Tcb).incoming = t.incoming := by
+    show ({ segments := [], text := t.incoming.text } : Incoming) = t.incoming
+    rw [← hheap]
+  unfold segmentArrives
+  dsimp only
+  rw [if_neg (by rw [hst]; simp), hseqok]
+  dsimp only
+  rw [hheap, push_nil]
+  have h2 : [g].length + 1 = 2 := rfl
+  rw [h2]
+  unfold drain
+  dsimp only
+  rw [peek_single]
+  dsimp only
+  rw [hseq, modGt_self, pop_single]
+  simp only [Bool.and_false, Bool.false_eq_true, if_false]
+  have hproc : processSegment
+      { t with incoming := { segments := [], text := ({ t with incoming.segments := [g] } : Tcb).incoming.text } } g =
+      .ok (t3, .Success) := e3
+  rw [hproc]
+  dsimp only [ProcessSegmentResult.shouldDeleteTcb]
+  simp only [Bool.false_eq_true, if_false]
+  unfold drain
+  have hs3 : t3.incoming.segments = [] := by rw [in3]
+  rw [hs3]
+  exact ⟨t3, rfl, u3, r3, n3, i3, rc3, in3.trans hinc, st3, ot3, os3⟩
+
 end Elvis.Tcp.C01
